@@ -86,7 +86,68 @@ def run_uf_history(n, hist):
     return bad, merged
 
 
-def run_ft_history(init, hist):
+def run_uf_big(n, kind):
+    """adversarial union orders on n elements; every answer is checked against a label array"""
+    from solvor.utils.data_structures import UnionFind
+    uf = UnionFind(n)
+    label = list(range(n))
+    members = {i: [i] for i in range(n)}
+
+    def model_union(a, b):
+        la, lb = label[a], label[b]
+        if la == lb:
+            return False
+        if len(members[la]) < len(members[lb]):
+            la, lb = lb, la
+        for x in members[lb]:
+            label[x] = la
+        members[la].extend(members.pop(lb))
+        return True
+
+    bad = []
+    try:
+        if kind == "caterpillar":
+            # each brand-new element (given first) is joined to a rank-0 child of the current root
+            uf.union(0, 1); model_union(0, 1)
+            leaf = 1
+            for x in range(2, n):
+                r = uf.union(x, leaf)
+                if r != model_union(x, leaf):
+                    bad.append(f"union({x},{leaf}) returned {r}")
+                    break
+                leaf = x if x % 2 == 0 else leaf
+        elif kind == "chain-first-arg":
+            for x in range(1, n):
+                if uf.union(x, x - 1) != model_union(x, x - 1):
+                    bad.append(f"union({x},{x - 1})")
+                    break
+        elif kind == "chain-second-arg":
+            for x in range(1, n):
+                if uf.union(x - 1, x) != model_union(x - 1, x):
+                    bad.append(f"union({x - 1},{x})")
+                    break
+        else:
+            for x in range(0, n - 1, 2):
+                uf.union(x, x + 1); model_union(x, x + 1)
+            for x in range(0, n - 2, 2):
+                if uf.union(x + 1, x + 3 if x + 3 < n else x + 2) != model_union(x + 1, x + 3 if x + 3 < n else x + 2):
+                    bad.append(f"merge step at {x}")
+                    break
+        for a in (1, 0, n - 1, n // 2, 2, 3):
+            if label[uf.find(a)] != label[a]:
+                bad.append(f"find({a}) outside its class")
+        if uf.connected(1, n - 1) != (label[1] == label[n - 1]):
+            bad.append("connected(1, n-1) wrong")
+        if uf.component_count != len(members):
+            bad.append(f"component_count {uf.component_count}, model {len(members)}")
+    except RecursionError as e:
+        bad.append(f"RecursionError on a history of {n} elements ({kind}): no answer")
+    except Exception as e:  # noqa
+        bad.append(f"raised {e!r}")
+    return bad
+
+
+def run_ft_history(init, hist, exact=False):
     from solvor.utils.data_structures import FenwickTree
     ft = FenwickTree(list(init) if not isinstance(init, int) else init)
     arr = [0] * init if isinstance(init, int) else list(init)
@@ -205,6 +266,29 @@ def bounded(ctx: Ctx):
             ctx.violation("C20/FenwickTree/history-vs-array-model",
                           {"kind": "ft", "init": init, "history": [list(h) for h in hist]}, f"step {b[0]}: {b[1]}")
     ctx.scope("FenwickTree random", runs=R, n="0..70")
+    # --- size ladder: adversarial union orders on thousands of elements (deep trees if balancing or compression
+    #     is lost: find must still answer), long random histories on big structures
+    for n, kind in ((2200, "caterpillar"), (2600, "chain-first-arg"), (3000, "chain-second-arg"), (1500, "pairs-then-merge")):
+        bad = run_uf_big(n, kind)
+        n_eval += 1
+        nontriv.add(("uf-big", n, kind))
+        for b in bad:
+            ctx.violation("C20/UnionFind/history-vs-partition-model", {"kind": "uf-big", "n": n, "order": kind}, b)
+    ctx.scope("UnionFind size ladder", sizes=[2200, 2600, 3000, 1500], orders=["caterpillar", "chain-first-arg", "chain-second-arg", "pairs-then-merge"])
+    # --- fine-grained deltas: multiples of 2**-60 (exactly representable, sums exact), oracle in Fractions
+    from fractions import Fraction
+    unit = 2.0 ** -60
+    for r in range(60 if ctx.quick else 600):
+        n = rng.randint(1, 40)
+        init = [rng.randint(-8, 8) * unit for _ in range(n)] if r % 2 else n
+        hist = [("u", rng.randrange(n), rng.choice([1, -1, 2, 4, 1024, 3]) * unit) for _ in range(rng.randint(1, 10))]
+        bad = run_ft_history(init, hist, exact=True)
+        n_eval += 1
+        nontriv.add(("ft-tiny", str(init), tuple(hist)))
+        for b in bad:
+            ctx.violation("C20/FenwickTree/history-vs-array-model", {"kind": "ft", "init": init, "history": [list(h) for h in hist], "exact": True},
+                          f"step {b[0]}: {b[1]}")
+    ctx.scope("FenwickTree tiny deltas (multiples of 2**-60)", runs=60 if ctx.quick else 600)
     ctx.count(n_eval, {repr(x) for x in nontriv}, samples)
 
 
@@ -250,7 +334,9 @@ def replay(rec):
         out = rp(key, case)
         print(out)
         return 1 if out.get("confirmed") else 0
-    if case.get("kind") == "uf":
+    if case.get("kind") == "uf-big":
+        bad = run_uf_big(case["n"], case["order"])
+    elif case.get("kind") == "uf":
         bad, _ = run_uf_history(case["n"], [tuple(o) for o in case["history"]])
     else:
         init = case["init"]
